@@ -130,6 +130,39 @@ def reachable(n):
     return out
 
 
+def exact_data_pairs(root, c, lib_pairs):
+    """C07_*_clone_data evaluated on the implementation: every first-class element below the copied
+    root carries the dictionary of its source entry by entry in order, '.NS' removed and appended with
+    the root's policy (when the root has one); ports and cables carry the raw bundle attributes"""
+    bad = []
+    pairs = [(root, c)]
+    bundles = []
+    for l0, l1 in lib_pairs:
+        if l0 is not root:
+            pairs.append((l0, l1))
+        for d0, d1 in zip(l0.definitions, l1.definitions):
+            pairs.append((d0, d1))
+            for grp in ('ports', 'cables', 'children'):
+                z = list(zip(getattr(d0, grp), getattr(d1, grp)))
+                pairs += z
+                if grp != 'children':
+                    bundles += z
+    for a, b in pairs:
+        if '.NS' in root._data:
+            exp = [(k, v) for k, v in a._data.items() if k != '.NS'] + [('.NS', root._data['.NS'])]
+        else:
+            exp = list(a._data.items())
+        if list(b._data.items()) != exp:
+            bad.append('data of cloned %s: %r, expected %r' % (type(a).__name__, list(b._data.items()), exp))
+    for a, b in bundles:
+        fa = (a._is_downto, a._is_scalar, a._lower_index, getattr(a, '_direction', None))
+        fb = (b._is_downto, b._is_scalar, b._lower_index, getattr(b, '_direction', None))
+        if fa != fb:
+            bad.append('bundle attributes of cloned %s: %r, source %r' % (type(a).__name__, fb, fa))
+    return bad[:3]
+
+
+
 # ---------- C07 oracle ----------
 def c07_oracle(w, rng, root_idx, n0, snap0):
     """w: world after `clone root_idx`; n0 = number of objects before; snap0 = dump lines before"""
@@ -163,6 +196,13 @@ def c07_oracle(w, rng, root_idx, n0, snap0):
                 bad.append('the copy holds an outer pin naming an element of the original')
         if canon_netlist(root) != canon_netlist(c):
             bad.append('copy is not structurally identical to the original')
+        else:
+            bad += exact_data_pairs(root, c, list(zip(root.libraries, c.libraries)))
+            t0x, t1x = root.top_instance, c.top_instance
+            if t0x is not None and t1x is not None and not any(t0x in list(d.children) for lib in root.libraries for d in lib.definitions):
+                # a stand-alone top instance is not below the netlist: its copy keeps the dictionary as it is
+                if list(t1x._data.items()) != list(t0x._data.items()):
+                    bad.append('data of the cloned stand-alone top instance: %r, source %r' % (list(t1x._data.items()), list(t0x._data.items())))
         if not elab.wf_netlist(root):
             for f in elab.wf_netlist(c)[:3]:
                 bad.append('copy not well-formed: ' + f)
@@ -249,12 +289,33 @@ def c07_oracle(w, rng, root_idx, n0, snap0):
             if canon_def(root, li) != canon_def(c, li):
                 # references of children are compared as external names in both
                 bad.append('cloned definition is not structurally identical')
+            # C07_definition_clone_data evaluated on the implementation: every first-class element of the
+            # copy carries the dictionary of its source entry by entry IN ORDER, except that - when the
+            # definition has a naming policy - '.NS' is removed and appended with the definition's policy;
+            # ports and cables carry the raw bundle attributes
+            pairs = [(root, c)] + list(zip(root.ports, c.ports)) + list(zip(root.cables, c.cables)) + \
+                list(zip(root.children, c.children))
+            for a, b in pairs:
+                if '.NS' in root._data:
+                    exp = [(k, v) for k, v in a._data.items() if k != '.NS'] + [('.NS', root._data['.NS'])]
+                else:
+                    exp = list(a._data.items())
+                if list(b._data.items()) != exp:
+                    bad.append('data of cloned %s: %r, expected %r' % (w.kind(a), list(b._data.items()), exp))
+            for a, b in list(zip(root.ports, c.ports)) + list(zip(root.cables, c.cables)):
+                fa = (a._is_downto, a._is_scalar, a._lower_index, getattr(a, '_direction', None))
+                fb = (b._is_downto, b._is_scalar, b._lower_index, getattr(b, '_direction', None))
+                if fa != fb:
+                    bad.append('bundle attributes of cloned %s: %r, source %r' % (w.kind(a), fb, fa))
             if len(c.references) != 0:
                 bad.append('cloned definition has references')
             for x in c.children:
                 if x.reference is not None and not any(y is x for y in x.reference.references):
                     bad.append('child of the cloned definition not registered with its reference')
         if kind == 'library':
+            if len(root.definitions) == len(c.definitions) and all(
+                    len(getattr(d0, g)) == len(getattr(d1, g)) for d0, d1 in zip(root.definitions, c.definitions) for g in ('ports', 'cables', 'children')):
+                bad += exact_data_pairs(root, c, [(root, c)])
             for d0, d1 in zip(root.definitions, c.definitions):
                 if canon_data(d0) != canon_data(d1) or len(d0.children) != len(d1.children) or len(d0.ports) != len(d1.ports):
                     bad.append('cloned library differs')
@@ -398,6 +459,55 @@ def gen_case(prop, seed, case):
     return rng, ops, info
 
 
+class Uncopyable:
+    def __deepcopy__(self, memo):
+        raise RuntimeError('this value cannot be copied')
+
+    def __repr__(self):
+        return 'Uncopyable'
+
+
+def clone_fault(w, rng, root):
+    """plant an uncopyable user value on an element of the subtree of `root`, call clone(), expect it to raise,
+    and compare every object with its dump from before the call"""
+    import spydrnet as sdn
+    ro = w.objs[root]
+    sub = [ro]
+    if isinstance(ro, sdn.ir.Netlist):
+        sub += [l for l in ro.libraries] + [d for l in ro.libraries for d in l.definitions] + \
+               [x for l in ro.libraries for d in l.definitions for x in list(d.ports) + list(d.cables) + list(d.children)]
+    elif isinstance(ro, sdn.ir.Library):
+        sub += [d for d in ro.definitions] + [x for d in ro.definitions for x in list(d.ports) + list(d.cables) + list(d.children)]
+    elif isinstance(ro, sdn.ir.Definition):
+        sub += list(ro.ports) + list(ro.cables) + list(ro.children)
+    sub = [e for e in sub if hasattr(e, '_data') and id(e) in w.index]
+    if not sub:
+        return []
+    # the later the element is visited, the more of the copy exists when the fault strikes
+    e = sub[-1] if rng.random() < 0.5 else rng.choice(sub)
+    key = 'verif.uncopyable'
+    e._data[key] = Uncopyable()
+    try:
+        before = [w.dump_obj(i) for i in range(len(w.objs))]
+        n_before = len(w.objs)
+        raised = False
+        try:
+            ro.clone()
+        except Exception:  # noqa
+            raised = True
+        after = [w.dump_obj(i) for i in range(n_before)]
+        bad = []
+        for i, (a, b) in enumerate(zip(before, after)):
+            if a != b:
+                bad.append('a clone() that %s changed the source: object %d was [%s], is [%s]' % ('raised half-way' if raised else 'returned', i, a[:160], b[:160]))
+        return bad
+    finally:
+        e._data.pop(key, None)
+        # objects the failed clone created are not part of any history: forget them
+        del w.objs[n_before:]
+        w.index = {k: v for k, v in w.index.items() if v < n_before}
+
+
 def run_case(prop, seed, case):
     """returns dict(ops, impl_dumps, fails)"""
     rng, ops, info = gen_case(prop, seed, case)
@@ -431,7 +541,15 @@ def run_case(prop, seed, case):
                 root = nl
             else:
                 root = rng.randrange(0, len(w.objs))
-            # sometimes make the top instance also a child of some definition
+            # fault half-way (implementation only, a third of the cases): some element inside what is about to be
+            # copied carries a user value that cannot be copied, so the clone raises in the middle of its work;
+            # "never modifies the source": afterwards every object is as it was. The value is taken out again
+            # behind the API's back, so the history both sides see is unchanged.
+            if rng.random() < 0.33:
+                bad_src = clone_fault(w, rng, root)
+                if bad_src:
+                    fails.append({'step': len(hist) - 1, 'oracle': 'Clone', 'failures': bad_src[:4]})
+                    return dict(ops=hist, dumps=dumps, fails=fails, kind=w.kind(w.objs[root]))
             n0 = len(w.objs)
             snap0 = [w.dump_obj(i) for i in range(n0)]
             out = do(['clone', str(root)])
@@ -543,6 +661,53 @@ def run_case(prop, seed, case):
         w.close()
 
 
+def clash_witness():
+    """Props/C08.v, C08_name_clash_sample: library 'work' already holds 'mid_sdn_unique_0' when uniquify (counter 0)
+    has to clone 'mid'. The model says: ValueError after the clone was made; the copy stays outside every
+    library and its child is registered with the leaf cell. Run on the implementation and on the model."""
+    T = netgen.tok_of_s
+    ops = [['new', 'netlist', '~', '0'],
+           ['create', 'libs', '0', T('work'), '0', '0', '~'],
+           ['create', 'defs', '1', T('INV'), '0', '0', '~'],
+           ['create', 'ports', '2', T('A'), '0', '1', '~'],
+           ['create', 'defs', '1', T('mid'), '0', '0', '~'],
+           ['create', 'children', '5', T('u'), '0', '0', '2'],
+           ['create', 'cables', '5', T('n'), '0', '1', '~'],
+           ['connect', '8', 'S6.4', '~'],
+           ['create', 'ports', '5', T('P'), '0', '1', '~'],
+           ['connect', '8', 'I10', '~'],
+           ['create', 'defs', '1', T('top'), '0', '0', '~'],
+           ['create', 'children', '11', T('m1'), '0', '0', '5'],
+           ['create', 'children', '11', T('m2'), '0', '0', '5'],
+           ['create', 'cables', '11', T('t'), '0', '1', '~'],
+           ['connect', '15', 'S12.10', '~'],
+           ['connect', '15', 'S13.10', '~'],
+           ['settop', '0', 'D11'],
+           ['create', 'defs', '1', T('mid_sdn_unique_0'), '0', '0', '~'],
+           ['uniquify', '0', FUEL]]
+    w = World()
+    dumps, outs = [], []
+    try:
+        for op in ops:
+            out = w.apply(op)
+            outs.append(out)
+            dumps.append(w.dump(out))
+        lib = w.objs[1]
+        facts = {'outcome': outs[-1], 'objects': len(w.objs),
+                 'library': [d.name for d in lib.definitions],
+                 'orphan_copy': (w.objs[18].name, w.objs[18].library is None) if len(w.objs) > 18 else None,
+                 'leaf_references': len(w.objs[2].references), 'm1_reference': w.objs[12].reference.name}
+    finally:
+        w.close()
+    model = run_model([ops])[0]
+    dis = [j for j, (a, b) in enumerate(zip(dumps, model)) if a != b]
+    expected = {'outcome': 'value', 'objects': 24, 'library': ['INV', 'mid', 'top', 'mid_sdn_unique_0'],
+                'orphan_copy': ('mid_sdn_unique_0', True), 'leaf_references': 2, 'm1_reference': 'mid'}
+    return {'ops': ops, 'facts': facts, 'as_proved': facts == expected, 'first_disagreement_step': dis[:1],
+            'model_steps': len(model), 'impl_steps': len(dumps)}
+
+
+
 QUICK = {'C07': 120, 'C08': 120, 'C09': 120}
 # extraction/driver cross-check against `Eval vm_compute` (harness/coq_eval.py): number of cases per run
 XCHECK = {'quick': 40, 'thorough': 500}
@@ -632,6 +797,22 @@ def run(prop, tier, seed, replay):
             m['source'] = 'generated case %d of seed %d' % (xc_sample[m['case']]['case'], seed)
     xc_ev = coq_eval.report(rep, prop, 'xform', xc_res)
 
+    witness = None
+    if prop == 'C08':
+        witness = clash_witness()
+        if witness['first_disagreement_step'] or witness['model_steps'] != witness['impl_steps']:
+            rep.violation('clash-witness', {'kind': 'correspondence-broken', 'engine': 'xform',
+                                            'what': 'the name-clash witness of Props/C08.v (C08_name_clash_sample) behaves differently on the implementation and on the model',
+                                            'witness': witness}, found_input=False)
+        elif witness['facts'].get('outcome') != 'ok':
+            # the implementation refuses half-way: "new definitions get fresh, non-colliding names" fails on this input
+            kf = [k for k in known if k.get('status') == 'open' and k.get('signature') == 'uniquify-name-clash']
+            if kf:
+                rep.known_finding('%s: %s' % (kf[0].get('id'), kf[0].get('what')))
+            else:
+                rep.violation('clash-witness', {'kind': 'property-violation-on-implementation', 'engine': 'xform',
+                                                'what': 'uniquify does not complete on a netlist whose library already holds the name it generates',
+                                                'ops': [' '.join(o) for o in witness['ops']], 'facts': witness['facts']})
     wall = time.time() - t0
     theorems = proof['theorems']
     coverage = {
@@ -651,6 +832,7 @@ def run(prop, tier, seed, replay):
         'samples': [{'case': r['case'], 'kind': r['kind'], 'last_ops': [' '.join(o) for o in r['ops'][-3:]], 'objects': len(r['dumps'][-1].split(' | ')) - 3} for r in results[:3]],
         'case_kind_histogram': dict(kinds), 'objects_histogram': dict(sorted(sizes.items())),
         'model_impl_disagreements': n_dis, 'oracle_failures': n_or, 'known_finding_hits': n_known,
+        'name_clash_witness': witness,
         'exhaustive': False,
     }
     common.write_evidence(prop, tier, seed, coverage, wall, len(rep.violations),
